@@ -116,12 +116,17 @@ IDS_PROOF = '''assert forall|k: u64| polynomial_ids(__r).contains(k) implies %(i
 
 
 def polynomial_from_units():
+    SORT = '''            assert forall|j: int| 0 <= j < __r.terms.len() implies sorted_seq((#[trigger] __r.terms[j]).ids@) by {
+                let i = choose|i: int| 0 <= i < %(v)s.len() && (#[trigger] %(v)s[i]).0.0@ == (#[trigger] __r.terms[j]).ids@;
+                %(why)s
+            }'''
+    SORT = '\n' + SORT
     f64u = Unit('From<f64> for Polynomial', P, 'from', impl=r'impl From<f64> for Polynomial \{', sig='fn from(c: f64) -> Self', anyhow=False,
                 pre=_from_pre('F64'), wrap=('impl From<F64> for Polynomial {', '}'),
                 header='''fn from(c: F64) -> (r: Self)
         // nothing for a zero constant, else the one monomial with the empty id list (no epsilon test here)
         ensures fin(c) ==> plists(r, cmap(c)),
-            polynomial_ids(r) =~= Set::<u64>::empty(),''',
+            polynomial_ids(r) =~= Set::<u64>::empty(), keys_sorted_p(r),''',
                 rsubs=[(r'(?s)Self \{\s*terms: vec!\[Monomial \{\s*ids: vec!\[\],\s*coefficient: c,?\s*\}\],?\s*\}', 'let mut __t: Vec<Monomial> = Vec::new(); __t.push(Monomial { ids: Vec::new(), coefficient: c }); let __r = Self { terms: __t }; __r', 1)],
                 proofs=[(('before', r'__r\s*\}\s*$'), '''proof {
             let g = cmap(c); let e = Seq::<u64>::empty();
@@ -139,7 +144,7 @@ def polynomial_from_units():
                header='''fn from(l: Linear) -> (r: Self)
         // the items of the term iterator, keyed by their (sorted) id lists, merged with the epsilon rule of FromIterator: r lists that map
         ensures linear_fin(l) ==> plists(r, lmap(l)),
-            polynomial_ids(r).subset_of(linear_ids(l)),''',
+            polynomial_ids(r).subset_of(linear_ids(l)), keys_sorted_p(r),''',
                pipes=[r'(?s)^\{\s*(.*)\.collect\(\)\s*\}\s*$'],
                rsubs=[(r'id\.into_iter\(\)\.collect\(\)', 'SortedIds::from_iter(opt_into_vec(id))', 1),
                       (r'(?s)^\{\s*\{ (.*) __p2 \}\s*\.collect\(\)\s*\}\s*$', r'{ \1 let __r = Polynomial::from_iter(__p2); __r }', 1)],
@@ -148,7 +153,7 @@ def polynomial_from_units():
             let lk = lkeyed(l);
             assert(sitems(__p2@) =~= lk) by { assert forall|i: int| 0 <= i < __p2.len() implies #[trigger] sitems(__p2@)[i] == lk[i] by { assert(__p2[i].1 == __p1[i].1); lemma_okey(__p1[i].0); } }
             if linear_fin(l) { assert(kfin(lk)) by { assert forall|i: int| 0 <= i < lk.len() implies fin((#[trigger] lk[i]).1) by { lemma_lkeyed_from(l, i); } } }
-            ''' + IDS_PROOF % dict(ids='linear_ids(l)', v='__p2', why='assert(sitems(__p2@)[i] == lk[i]); lemma_lkeyed_from(l, i); assert(lk[i].0[q] == k);') + '''
+            ''' + IDS_PROOF % dict(ids='linear_ids(l)', v='__p2', why='assert(sitems(__p2@)[i] == lk[i]); lemma_lkeyed_from(l, i); assert(lk[i].0[q] == k);') + SORT % dict(v='__p2', why='lemma_okey(__p1[i].0);') + '''
         }
         ''')])
     quad = Unit('From<Quadratic> for Polynomial', P, 'from', impl=r'impl From<Quadratic> for Polynomial \{', sig='fn from(q: Quadratic) -> Self', anyhow=False,
@@ -158,13 +163,13 @@ def polynomial_from_units():
         // observation: the term iterator panics on COO arrays of different lengths
         requires qcoo(q),
         ensures quadratic_fin(q) ==> plists(r, qmap(q)),
-            polynomial_ids(r).subset_of(quadratic_ids(q)),''',
+            polynomial_ids(r).subset_of(quadratic_ids(q)), keys_sorted_p(r),''',
                 rsubs=[(r'q\.into_iter\(\)\.collect\(\)', 'let __p1 = q.into_iter(); let __r = Polynomial::from_iter(__p1); __r', 1)],
                 proofs=[(('before', r'__r\s*\}\s*$'), '''proof {
             let f = fn_of_quadratic(q);
             assert(fn_titems_ok(__p1@, f));
             if quadratic_fin(q) { assert(kfin(sitems(__p1@))) by { assert forall|i: int| 0 <= i < __p1.len() implies fin((#[trigger] sitems(__p1@)[i]).1) by { lemma_fn_titems_from(__p1@, f, i); } } }
-            ''' + IDS_PROOF % dict(ids='quadratic_ids(q)', v='__p1', why='lemma_fn_titems_from(__p1@, f, i); assert(__p1[i].0.0@[q] == k);') + '''
+            ''' + IDS_PROOF % dict(ids='quadratic_ids(q)', v='__p1', why='lemma_fn_titems_from(__p1@, f, i); assert(__p1[i].0.0@[q] == k);') + SORT % dict(v='__p1', why='assert(sorted_seq(__p1[i].0.0@));') + '''
         }
         ''')])
     return [f64u, lin, quad]
